@@ -9,7 +9,6 @@ from flatland.util import (
     as_mapping,
     autodocument_from_superclasses,
     class_cloner,
-    lazy_property,
 )
 from flatland.schema.paths import pathexpr
 from .base import Element
@@ -572,7 +571,7 @@ class Ref(Scalar):
     def serialize(self, value):
         return self.target.serialize(value)
 
-    @lazy_property
+    @property
     def target(self):
         return self.find_one(self.target_path)
 
